@@ -22,7 +22,7 @@ func init() {
 			"R15-mathmap — each math library entry named after a libm function calls exactly that math.* function with CheckNumber(1)[, CheckNumber(2)] in order and pushes its result(s) in order; deg/rad use the 180/pi factors; max/min compare in the right direction; math.mod and the % operator share luaModulo; R14-readonly shared ('a string is never modified in place'). " +
 			"R15-flags — defaultFormat, which rebuilds each string.format directive for Go's fmt, probes fmt.State for all five printf flags (+ - # 0 and blank). R15-positions — string.byte's end defaults to its start, and every position is clamped to the string by luaIndex2StringIndex whatever its kind; R16-errsense shared — a number obtained from parseNumber is used only where its error was found nil (string.format converting numeric strings); R10-retcount shared. NOT decided: index clamping in sub/byte/find/match, format rendering of flags/width/precision, random's range — arithmetic on arguments.",
 		Trusted: []string{"Go's math package returns the IEEE result of each function"},
-		Rules:   []func(*Ctx){ruleStringResultsAreBuilt, rulePaddingIsBlanks, ruleNoSentinelDefaults, ruleSignOfNonFinite, ruleOptionalNilAlike, ruleRandomWidth, ruleLogHelpers, ruleBytes, ruleMathMap, ruleReadonly, ruleFormatFlags, ruleStrDefaults, ruleErrSense, ruleRetCount, ruleRelPos, ruleArgTypes, ruleCharRange, ruleFormatAsPrintf, ruleDebugMetatableAndHuge, ruleSurplusArgs, ruleSmallArithmeticGuards, ruleSearchStartClamped, ruleNumeralTextUnfiltered, ruleUnsignedZeroFlag},
+		Rules:   []func(*Ctx){ruleFormatAlwaysRenders, ruleStringResultsAreBuilt, rulePaddingIsBlanks, ruleNoSentinelDefaults, ruleSignOfNonFinite, ruleOptionalNilAlike, ruleRandomWidth, ruleLogHelpers, ruleBytes, ruleMathMap, ruleReadonly, ruleFormatFlags, ruleStrDefaults, ruleErrSense, ruleRetCount, ruleRelPos, ruleArgTypes, ruleCharRange, ruleFormatAsPrintf, ruleDebugMetatableAndHuge, ruleSurplusArgs, ruleSmallArithmeticGuards, ruleSearchStartClamped, ruleNumeralTextUnfiltered, ruleUnsignedZeroFlag},
 	})
 }
 
